@@ -1017,6 +1017,17 @@ func (e *Engine) convert(from, to types.Type, v Value, where ssa.Instruction) Va
 			return strFromCode(intOf(x, isSignedType(from)))
 		case Bytes:
 			return x.T
+		case JBytes:
+			// text of an abstract document: concrete when all leaves are, else an opaque
+			// string that remembers the document (and is "null" only for the null document)
+			if txt, ok := renderConcreteJSON(x.J); ok {
+				return mkStr(txt)
+			}
+			t := e.freshStr("jsontext", -1)
+			t.JSONOf = x.J
+			e.addPC(Not(Eq(t, mkStr("null"))))
+			e.addPC(Not(Eq(t, mkStr(""))))
+			return t
 		case Slice:
 			if fs, ok := fu.(*types.Slice); ok {
 				if eb, _ := fs.Elem().Underlying().(*types.Basic); eb != nil && eb.Kind() == types.Int32 {
